@@ -146,9 +146,10 @@ fn concurrent_first_look(regs: &[IpcSharedMemory], wants: &[Vec<u8>], threads: u
     let gate = std::sync::atomic::AtomicUsize::new(0);
     let bad = std::sync::Mutex::new(None);
     std::thread::scope(|sc| {
+        let mut handles = vec![];
         for t in 0..threads {
             let (gate, bad) = (&gate, &bad);
-            sc.spawn(move || {
+            handles.push(sc.spawn(move || {
                 gate.fetch_add(1, std::sync::atomic::Ordering::SeqCst);
                 while gate.load(std::sync::atomic::Ordering::SeqCst) < threads {
                     std::hint::spin_loop();
@@ -161,7 +162,13 @@ fn concurrent_first_look(regs: &[IpcSharedMemory], wants: &[Vec<u8>], threads: u
                         }
                     }
                 }
-            });
+            }));
+        }
+        // join every thread for real (pthread_join): the scope alone only waits until the closures
+        // have returned, and a thread that is still on its way out while this process forks its
+        // next receiver leaves the child with locks nobody will ever release
+        for h in handles {
+            let _ = h.join();
         }
     });
     bad.into_inner().unwrap()
@@ -220,6 +227,7 @@ fn run(case: &Case) -> Result<Outcome, Failure> {
     let mut child = None;
     let mut rx_opt = Some(rx);
     if in_child {
+        sandbox::wait_until_single_threaded(Duration::from_secs(2));
         let rx = rx_opt.take().unwrap();
         let wants_c = wants.clone();
         let (tx_child_copy, tx2_child_copy) = (tx.clone(), tx2.clone());
